@@ -199,6 +199,39 @@ def run(tier, selftest=False, only=None):
             rep.case(["molar", u, e])
             if not close(got, float(scale ** e)):
                 rep.violation("families", "conv:molar:" + u, {"unit": u, "exp": e, "got": got, "expected": float(scale ** e)})
+    # (e) unit strings in which a base occurs several times - explicitly (m/s/s) or through the litre and molar symbols
+    #     (M.L = mol, mL/cm3 = 1): the exponents of one base add up before anything is converted
+    vol, den = sc["volume"], sc["density"]
+    composites = []
+    for a, b in [("m", "s"), ("km", "h"), ("µm", "ms"), ("cm", "min")]:
+        fa = UO.conv(sc, (a, b, "molecule"), m3, (1, -2, 0))
+        composites.append(("%s/%s/%s" % (a, b, b), fa, "m/s/s"))
+        composites.append(("%s.%s-1.%s-1" % (a, b, b), fa, "m.s-2"))
+        composites.append(("%s.%s/%s" % (a, a, b), UO.conv(sc, (a, b, "molecule"), m3, (2, -1, 0)), "m2/s"))
+    # (a string may name one base several times only through the SAME base unit: the molar symbols are per dm3 = L,
+    #  and each litre symbol is the cube of one length unit)
+    cube_of = {lu: su for lu in vol for su in sc["space"] if UO.conv(sc, (su, "s", "molecule"), m3, (3, 0, 0)) == vol[lu]}
+    for mu in den:
+        composites.append(("%s.L" % mu, den[mu] * vol["L"], "molecule"))                      # concentration x volume = amount
+        composites.append(("L.%s" % mu, den[mu] * vol["L"], "molecule"))
+        composites.append(("%s.dm3" % mu, den[mu] * vol["L"], "molecule"))
+    for lu, su in cube_of.items():
+        composites.append(("%s/%s3" % (lu, su), Fr(1), ""))                                   # a pure number
+        composites.append(("%s.%s-2" % (lu, su), UO.conv(sc, (su, "s", "molecule"), m3, (1, 0, 0)), "m"))
+    for text, factor, target in composites:
+        rep.case(["composite", text])
+        try:
+            got = UnitValue(1.0, text).convert(mk_sys(m3))
+            gv = got.value
+            if target:
+                gv2 = UnitValue(1.0, text).convert(target).value
+            else:
+                gv2 = gv
+        except Exception as e:  # noqa
+            rep.violation("families", "conv:composite-string-exception", {"text": text, "exc": repr(e)[:160]})
+            continue
+        if not close(gv, float(factor)) or not close(gv2, float(factor)):
+            rep.violation("families", "conv:composite-string", {"text": text, "got": [gv, gv2], "expected": float(factor), "as": str(got.units)})
     rep.traces = rep.evaluations
     rep.sample({"src": ["km", "h", "mol"], "dst": ["µm", "ms", "molecule"], "dim": [2, -1, 1],
                 "expected_factor": float(UO.conv(sc, ("km", "h", "mol"), ("µm", "ms", "molecule"), (2, -1, 1)))})
